@@ -52,6 +52,9 @@ if __name__ == '__main__':
     lanes = int(sys.argv[1]) if len(sys.argv) > 1 else 4
     flt = sys.argv[2] if len(sys.argv) > 2 else ''
     names = sorted(os.path.basename(os.path.dirname(f)) for f in glob.glob(os.path.join(ROOT, 'seeded', '*', 'meta.json')) if flt in f)
+    if os.environ.get('REGRESS_NAMES'):
+        only = set(open(os.environ['REGRESS_NAMES']).read().split())
+        names = [n for n in names if n in only]
     parts = [(l + 1, names[l::lanes]) for l in range(lanes)]
     with Pool(lanes) as p:
         allout = [x for part in p.map(work, parts) for x in part]
